@@ -8,6 +8,8 @@
 (*   owner     a claimed shard is owned only by the instance with the       *)
 (*             newest claim, and by it unless it released it or has left    *)
 (*   leftowns  no live instance still lists an instance that left           *)
+(*   realleave a real memberlist leave: Leave returns, the others forget the *)
+(*             instance and stay operational                                *)
 (*   mergeview after a state push of i was merged at j, j's view of i is    *)
 (*             what the push held                                           *)
 (* Route events (one call of DeliverMessagesToShardOwner /                  *)
@@ -75,12 +77,18 @@ OnRoute(e) ==
   IN /\ (IF ok THEN TRUE ELSE FlagAll({<<l, "route", e.id, 0>>}))
      /\ UNCHANGED <<seqno, claim, held, left, broken, snapv>>
 
+\* real memberlist instances (in-process transport): b joins a, b leaves for real. The leaving instance's Leave returns, the
+\* others forget it ("instances that left own nothing"), their memberlist keeps working and a newcomer can still join.
+OnRealLeave(e) ==
+  /\ (IF e.joined /\ e.left /\ e.forgotten /\ e.responsive /\ e.rejoin THEN TRUE ELSE FlagAll({<<l, "realleave", e.id, 0>>}))
+  /\ UNCHANGED <<seqno, claim, held, left, broken, snapv>>
 Next == /\ l <= Len(Trace) /\ l' = l + 1
         /\ LET e == Trace[l] IN
            CASE e.ev = "Config" -> seqno' = 0 /\ claim' = <<>> /\ held' = <<>> /\ left' = {} /\ broken' = FALSE /\ snapv' = <<>>
              [] e.ev = "Step" -> OnStep(e)
              [] e.ev = "Quiet" -> OnQuiet(e)
              [] e.ev = "Route" -> OnRoute(e)
+             [] e.ev = "RealLeave" -> OnRealLeave(e)
              [] OTHER -> UNCHANGED <<seqno, claim, held, left, broken, snapv>>
 Spec == Init /\ [][Next]_vars
 Report == PrintT(<<"OBS_VIOLATIONS", TLCGet(1)>>) /\ PrintT(<<"OBS_TRACE_LEN", Len(Trace)>>)
